@@ -49,7 +49,7 @@ def check(ctx) -> Result:
     res.floor("cache reads", res.stats.get("cache_reads", 0), 6)
     res.floor("cache stores", res.stats.get("cache_stores", 0), 7)
     res.floor("refresh observables", res.stats.get("refresh_observables", 0), 10)
-    res.floor("result-field reads", res.stats.get("result_field_reads", 0), 4)
+    res.floor("result fields of Analyzer.analyze", res.stats.get("result_fields", 0), 2)
     from ..rules import rf_cache as _rf
     n7 = 0
     for _cn in ['Sampler', 'QuickSampler', 'Analyzer']:
